@@ -139,6 +139,9 @@ def check_c14(tier):
         if c["kind"] == "enc":
             rep.sample({"encode": {"draft": c["draft"], "rs": c["rs"], "payload_len": len(c["payload"]), "digest": bytes(c["digest"]).decode("latin1"), "stream_len": len(c["stream"])}})
     rep.assumptions = ["record size >= 1 (the property's own bound)", "SHA-256 as implemented by the JDK is the reference hash"]
+    # decoders / encoders of DIFFERENT streams running in parallel do not interfere (Trace_Purity, race detector)
+    from purity_checks import parallel_cold
+    parallel_cold(rep, "C14", "mice")
     return rep.finish()
 
 
@@ -173,6 +176,9 @@ def check_c15(tier):
     # 'any byte stream whatsoever' includes how the stream is delivered and a source that fails (ReaderFaults.tla)
     from rf_checks import reader_faults
     reader_faults(rep, "C15", ["mice"], tier)
+    # decoders / encoders of DIFFERENT streams running in parallel do not interfere (Trace_Purity, race detector)
+    from purity_checks import parallel_cold
+    parallel_cold(rep, "C15", "mice")
     return rep.finish()
 
 
